@@ -74,8 +74,13 @@ RULES = {
     "the value_info entry (which assigns both fields unconditionally), the tensor's information is put back exactly when the entry left the "
     "field None - a wider test (`is None or has_unknown_dim()`) replaces a declared shape with unknown or named dimensions and their "
     "denotations by the tensor's static one, so the value_info written back differs from the one read (rule shared with C17-R9)",
+    "R19": "a function keeps the spelling of its identifier: below IR version 10 the value information of a function's values is stored under "
+    "names `<domain>::<name>/<value>` that the reader matches, as text, against the identifiers of the model's functions - so "
+    "Function.__init__ stores domain, name and overload exactly as they are passed (the parameter itself, no call on it); with "
+    "`self._domain = _normalize_domain(domain)` a function declared in `ai.onnx` is keyed as `''`, the entries `ai.onnx::F/x` match "
+    "nothing and type, shape, doc string and metadata of the function's values are dropped on proto -> IR -> proto",
 }
-FLOORS = {"R1": 100, "R2": 40, "R3": 30, "R4": 1, "R5": 40, "R6": 20, "R7": 6, "R8": 3, "R9": 3, "R10": 10, "R11": 1, "R12": 12, "R13": 2, "R14": 10, "R15": 4, "R16": 20, "R17": 4, "R18": 1}
+FLOORS = {"R1": 100, "R2": 40, "R3": 30, "R4": 1, "R5": 40, "R6": 20, "R7": 6, "R8": 3, "R9": 3, "R10": 10, "R11": 1, "R12": 12, "R13": 2, "R14": 10, "R15": 4, "R16": 20, "R17": 4, "R18": 1, "R19": 3}
 EXPLANATION = (
     "Types every proto expression of serde.py through parameter annotations and the parsed onnx-ml.proto schema, "
     "collects per message the fields the deserializer reads and the serializer writes (attribute access, HasField, "
@@ -729,7 +734,7 @@ def _collection_of(f, e) -> str | None:
     return None
 
 
-def rule_r8(ctx):
+def rule_r8(ctx, rule="R8", consequence=""):
     n = 0
     for f in writer_funcs(ctx):
         # per-value emitters: module helpers called with a loop variable inside loops over value collections
@@ -766,10 +771,10 @@ def rule_r8(ctx):
             for coll, defers, c in lst:
                 n += 1
                 back = [(c2, coll2) for coll2, defers2, c2 in lst if coll2 in defers and coll in defers2]
-                ctx.check("R8", f"{f.local}: {emitter}(…) in the loop over {coll} (defers to {sorted(defers) or 'nothing'})", not back, f, c,
+                ctx.check(rule, f"{f.local}: {emitter}(…) in the loop over {coll} (defers to {sorted(defers) or 'nothing'})", not back, f, c,
                           f"the loop over `{coll}` skips values that are also in `{back[0][1] if back else ''}` and the loop over "
                           f"`{back[0][1] if back else ''}` skips values that are also in `{coll}`: for a value in both collections {emitter} is never "
-                          "called, so what it emits is lost in the round trip",
+                          "called, so what it emits is lost in the round trip" + consequence,
                           how="membership guards of the emitter's call sites, collection of each enclosing loop; no pair defers to each other",
                           construct=f"{emitter}: {coll} and {back[0][1] if back else ''} defer to each other")
     ctx.require(n >= 3, f"only {n} per-value emitter sites examined")
@@ -1235,8 +1240,30 @@ def _guards_against(lp, coll, src, derived, emitters) -> bool:
     return False
 
 
+def rule_r19(ctx):
+    k = ctx.repo.cls("onnx_ir._core:Function")
+    init = k.methods.get("__init__")
+    ctx.require(init is not None, "Function.__init__ not found")
+    me = init.params[0]
+    n = 0
+    for part in ("domain", "name", "overload"):
+        stores = [a for a in own_nodes(init.node) if isinstance(a, (ast.Assign, ast.AnnAssign)) and getattr(a, "value", None) is not None and any(
+            isinstance(t, ast.Attribute) and norm(t.value) == me and t.attr in (part, "_" + part) for t in (a.targets if isinstance(a, ast.Assign) else [a.target]))]
+        for a in stores:
+            n += 1
+            ok = isinstance(a.value, ast.Name) and a.value.id in init.params
+            ctx.check("R19", f"Function.__init__: `{norm(a)[:50]}` keeps the {part} as given", ok, init, a,
+                      f"`{norm(a)[:70]}` rewrites the {part} a function is created with: the reader of pre-IR10 function value information matches `<domain>::<name>/<value>` "
+                      "against the identifiers of the model's functions as text, so entries written with the original spelling (`ai.onnx::F/x`) match no function any more and "
+                      "are dropped - the value information of the function's values is lost in proto -> IR -> proto",
+                      how="right-hand side of the identifier stores in Function.__init__ is the bare parameter", construct=f"Function.__init__ rewrites its {part}")
+    ctx.require(n >= 3, f"only {n} identifier stores found in Function.__init__")
+
+
 def run(ctx):
     from . import c17
+
+    rule_r19(ctx)
 
     c17.rule_r9(ctx, rule="R18", consequence="the declared shape (unknown and named dimensions, denotations) or type of the entry is replaced by the tensor's, "
                 "so the value_info entry serialized afterwards is not the one that was read")
